@@ -179,10 +179,10 @@ def cases(tier, seed):
         n = len(d["text"])
         for lo in range(0, n, chunk):
             yield {"kind": "prefix", "doc": k, "lo": lo, "hi": min(n, lo + chunk), "tier": tier, "seed": seed}
-    nedit = 100 if tier == "quick" else 6000
+    nedit = 700 if tier == "quick" else 6000
     for i in range(nedit):
         yield {"kind": "edit", "i": i, "n": 50, "tier": tier, "seed": seed}
-    nrand = 40 if tier == "quick" else 2000
+    nrand = 300 if tier == "quick" else 2000
     for i in range(nrand):
         yield {"kind": "random", "i": i, "n": 50, "tier": tier, "seed": seed}
 
